@@ -65,7 +65,7 @@ func AppendNumber(b []byte, num int64, dec int, groupSize int, groupSym rune, de
 		n-- // ignore minux sign, add later
 	}
 	if dec < n && 0 < groupSize && groupSym != 0 {
-		n += utf8.RuneLen(groupSym) * (n - dec - 1) / groupSize
+		n += utf8.RuneLen(groupSym) * ((n - dec - 1) / groupSize)
 	}
 	if 0 < dec {
 		if n <= dec {
